@@ -15,7 +15,7 @@ pub const DEF: PropDef = PropDef {
     run,
     replay,
     level: "exploration",
-    rule: "primitive objects obtained from DefaultResolver and RingResolver are compared with independent oracles on generated inputs: (hash) digest, HMAC and Noise-HKDF for all hashes of the backend with HMAC keys 0..=block length, data 0..=3 blocks +-1 (and larger), HKDF with 1/2/3 outputs; (aead) encrypt under (key, 64-bit nonce incl. every single bit and high bytes, AD length ladder 0..=257, 1000, 4 KiB+-1, 16 KiB, 32 KiB, 65535 and random up to 9000, plaintext length ladder up to 65535 (the statement's range; larger than any Noise message allows)) equals the standard cipher with the Noise nonce encoding, decrypt inverts it for both output-buffer paths, every single-bit change of ciphertext/tag/AD/nonce/key is rejected, rekey() equals REKEY; (dh) public keys and shared secrets for scalars and points incl. RFC 7748 / RFC 5903 vectors, clamping edge bits, non-canonical and low-order X25519 points, invalid P-256 points; generate() from a seeded RNG gives pubkey == oracle_pub(privkey) and distinct keys. Oracles: ring (SHA-2, AEAD, X25519, P-256) and own RFC 7693/2104/Noise-HKDF code for the default backend; RustCrypto called directly for the ring backend; the two oracle families are cross-checked on every run. Non-trivial = every comparison on a distinct generated input",
+    rule: "primitive objects obtained from DefaultResolver and RingResolver are compared with independent oracles on generated inputs: (hash) digest, HMAC and Noise-HKDF for all hashes of the backend with HMAC keys 0..=block length, data 0..=3 blocks +-1 (and larger), HKDF with 1/2/3 outputs; (aead) encrypt under (key, 64-bit nonce incl. every single bit and high bytes, AD length ladder 0..=257, 1000, 4 KiB+-1, 16 KiB, 32 KiB, 65535 and random up to 9000, plaintext length ladder up to 65535 (the statement's range; larger than any Noise message allows)) equals the standard cipher with the Noise nonce encoding, decrypt inverts it for both output-buffer paths, every single-bit change of ciphertext/tag/AD/nonce/key is rejected, rekey() equals REKEY; (dh) public keys and shared secrets for scalars and points incl. RFC 7748 / RFC 5903 vectors, clamping edge bits, non-canonical and low-order X25519 points, invalid P-256 points; generate() from a seeded RNG gives pubkey == oracle_pub(privkey) and distinct keys, and so does Builder::generate_keypair (full-length public key, both backends). Oracles: ring (SHA-2, AEAD, X25519, P-256) and own RFC 7693/2104/Noise-HKDF code for the default backend; RustCrypto called directly for the ring backend; the two oracle families are cross-checked on every run. Non-trivial = every comparison on a distinct generated input",
     technique: "differential testing of primitives against independent implementations and RFC known answers (proptest + boundary enumeration)",
     assumptions: &[
         "preconditions every internal caller guarantees are respected by the generator (output buffer >= input + 16, ciphertext >= 16 bytes, HMAC key <= block length, 32-byte HKDF chaining keys of hash length)",
@@ -411,6 +411,24 @@ fn oracle(c: &Case, acc: &mut Acc) -> CaseResult {
             d1.dh(d2.pubkey(), &mut o1).map_err(|x| Fail::setup(format!("{x:?}")))?;
             d2.dh(d1.pubkey(), &mut o2).map_err(|x| Fail::setup(format!("{x:?}")))?;
             ensure!(o1[..32] == o2[..32], "{kind:?}: DH not symmetric");
+            // the library's own key-pair generation (Builder::generate_keypair, the route an
+            // application takes): a full, consistent pair, distinct from call to call
+            {
+                let name = format!("Noise_NN_{}_ChaChaPoly_SHA256", kind.name());
+                let params: snow::params::NoiseParams = name.parse().map_err(|x| Fail::setup(format!("{x:?}")))?;
+                let rng2 = SharedRng::seeded(*seed ^ 0x99, *kind == DhKind::P256);
+                let b = snow::Builder::with_resolver(params, Box::new(crate::instr::VResolver::new(if seed % 3 == 0 { crate::instr::Backend::RingFirst } else { crate::instr::Backend::Default }, Some(rng2), None)));
+                let k1 = b.generate_keypair().map_err(|x| Fail::new(format!("{kind:?}: Builder::generate_keypair failed: {x:?}")))?;
+                let k2 = b.generate_keypair().map_err(|x| Fail::new(format!("{kind:?}: Builder::generate_keypair failed: {x:?}")))?;
+                for k in [&k1, &k2] {
+                    ensure!(k.private.len() == 32, "{kind:?}: Builder::generate_keypair: private key of {} bytes", k.private.len());
+                    let mut sk = [0u8; 32];
+                    sk.copy_from_slice(&k.private);
+                    let want = rc::dh_pub(*kind, &sk).ok_or("oracle rejects generated scalar")?;
+                    ensure!(k.public == want, "{kind:?}: Builder::generate_keypair returns a public key ({} bytes: {}) that is not the public key of its private key ({} bytes expected)", k.public.len(), hex::encode(&k.public), want.len());
+                }
+                ensure!(k1.private != k2.private && k1.public != k2.public, "{kind:?}: Builder::generate_keypair returned the same pair twice");
+            }
             acc.label(format!("dh_generate:{}", kind.name()));
             acc.nontrivial(&format!("{c:?}"));
         },
